@@ -137,3 +137,78 @@ func (c *Cipher) EncryptBlock(dst, src []byte) {
 	o := crypt(c.RK, src, false)
 	copy(dst, o[:])
 }
+
+// SolveKey returns a 16-byte key whose round keys rk[i], rk[i+1], .. take the given values (1 to 4 consecutive words;
+// i+len(vals) <= 32): the key schedule K[j+4] = K[j] ^ T'(K[j+1]^K[j+2]^K[j+3]^CK[j]) is a bijection on the sliding
+// window of four words, so a window is chosen freely (the unspecified words come from fill) and the recurrence is run
+// backwards to K[0..3] = MK ^ FK.
+func SolveKey(i int, vals []uint32, fill [4]uint32) []byte {
+	if len(vals) < 1 || len(vals) > 4 || i < 0 || i+len(vals) > 32 {
+		panic("sm4ref: SolveKey arguments")
+	}
+	// window K[w..w+3] with w = i+len(vals)-4+4-... : take the window that ends at rk[i+len(vals)-1] = K[i+len(vals)+3]
+	end := i + len(vals) + 3 // index into K of the last specified word
+	var K [36]uint32
+	w := end - 3 // window start (>= 1 because i >= 0 and len(vals) >= 1 give end >= 4)
+	for j := 0; j < 4; j++ {
+		K[w+j] = fill[j]
+	}
+	for j, v := range vals {
+		K[i+4+j] = v
+	}
+	for j := w - 1; j >= 0; j-- {
+		K[j] = K[j+4] ^ LPrime(tau(K[j+1]^K[j+2]^K[j+3]^CK(j)))
+	}
+	key := make([]byte, 16)
+	for j := 0; j < 4; j++ {
+		binary.BigEndian.PutUint32(key[4*j:], K[j]^FK[j])
+	}
+	rk := Expand(key)
+	for j, v := range vals {
+		if rk[i+j] != v {
+			panic("sm4ref: SolveKey failed")
+		}
+	}
+	return key
+}
+
+// SpecialScheduleKeys returns keys *solved* so that chosen round keys are 0 or 0xffffffff: every single position (all 32
+// in the thorough set, both values), and the windows rk[0..3], rk[28..31], rk[1..2], rk[14..17] all zero / all ones.
+// Code that treats a round-key word as a flag, sentinel or loop bound behaves differently exactly on such keys.
+func SpecialScheduleKeys(thorough bool) (keys [][]byte, names []string) {
+	fill := [4]uint32{0x9e3779b9, 0x7f4a7c15, 0xf39cc060, 0x5cedc834}
+	for i := 0; i < 32; i++ {
+		keys = append(keys, SolveKey(i, []uint32{0}, fill))
+		names = append(names, "rk"+itoa(i)+"=0")
+		if thorough || i == 0 || i == 31 {
+			keys = append(keys, SolveKey(i, []uint32{0xffffffff}, fill))
+			names = append(names, "rk"+itoa(i)+"=ff")
+		}
+	}
+	for _, w := range []struct{ i, n int }{{0, 4}, {28, 4}, {1, 2}, {14, 4}} {
+		for _, v := range []uint32{0, 0xffffffff} {
+			vals := make([]uint32, w.n)
+			for j := range vals {
+				vals[j] = v
+			}
+			keys = append(keys, SolveKey(w.i, vals, fill))
+			n := "0"
+			if v != 0 {
+				n = "ff"
+			}
+			names = append(names, "rk"+itoa(w.i)+".."+itoa(w.i+w.n-1)+"="+n)
+		}
+	}
+	return
+}
+
+func itoa(i int) string {
+	if i == 0 {
+		return "0"
+	}
+	s := ""
+	for ; i > 0; i /= 10 {
+		s = string(rune('0'+i%10)) + s
+	}
+	return s
+}
